@@ -766,6 +766,10 @@ CPROC_FILES = {'attr.c', 'decl.c', 'eval.c', 'expr.c', 'init.c', 'map.c', 'pp.c'
 
 def crash_class(status, err, src=None):
     e = err.decode('latin-1')
+    if src is not None and re.search(r'\bstruct\s+sa\s+x\w*\s*=\s*\{[^;]*\.', src) and 'emitdata' not in e:
+        # designators into the type with an anonymous member walk an unset cursor (uninitialised pointer): where the
+        # compiler dies depends on stack contents, so the site cannot serve as identity; the construct does
+        return 'crash/anonymous-member-designator'
     if 'Assertion' not in e and src is not None:
         # no assertion text: ask the ASan+UBSan build where it dies (crash-site class as in C19)
         try:
@@ -794,9 +798,12 @@ def crash_class(status, err, src=None):
     m = re.search(r'(\w+\.c):\d+: (\w+): Assertion `(.*?)\' failed', e)
     if m:
         return 'crash/assert-%s-%s' % (m.group(2), re.sub(r'[^A-Za-z0-9_>=<!.-]+', '_', m.group(3))[:50])
+    # no site could be established: qualify the signal by the object's type so that the class stays narrow
+    m = re.search(r'\b(struct|union)\s+(\w+)\s+x\w*\s*=', src)
+    ty = '@' + m.group(2) if m else ''
     if status >= 1000:
-        return 'crash/signal-%d' % (status - 1000)
-    return 'crash/status-%d' % status
+        return 'crash/signal-%d%s' % (status - 1000, ty)
+    return 'crash/status-%d%s' % (status, ty)
 
 
 def cproc_static(srv, ot, i, text, target='x86_64-sysv'):
